@@ -698,6 +698,78 @@ func (u *Unit) specCall(x *ast.CallExpr, env *Env, sc *specCtx) Value {
 	case "rtype":
 		v := u.sv(x.Args[0], env, sc)
 		return Value{u.rtype(v.Term), intT}
+	case "as", "isa", "impl":
+		// as(x, TypeName): x unboxed as the named struct type; isa(x, TypeName): dynamic type test; impl(x, IfaceName)
+		v := u.sv(x.Args[0], env, sc)
+		tn := x.Args[1].(*ast.Ident).Name
+		var named types.Type
+		for _, p := range u.Prog.Pkgs {
+			if o := p.Types.Scope().Lookup(tn); o != nil {
+				if _, ok := o.(*types.TypeName); ok {
+					named = o.Type()
+					break
+				}
+			}
+		}
+		if named == nil {
+			unsup("unknown type %s in %s()", tn, fname)
+		}
+		if v.Sort != SVal {
+			unsup("%s() on a non-interface value", fname)
+		}
+		switch fname {
+		case "as":
+			s2 := u.sortOf(named)
+			_, un := u.boxFn(s2)
+			return Value{App(un, s2, v.Term), named}
+		case "isa":
+			if !hasTypeParam(named) {
+				if _, isGeneric := named.(*types.Named); isGeneric && named.(*types.Named).TypeParams().Len() == 0 {
+					return Value{Same(u.rtype(v.Term), IntLit(int64(u.Prog.TypeIDs.ID(named)))), boolT}
+				}
+			}
+			fn := dynIsName(named)
+			u.D.Fun(fn, SBool, SVal)
+			return Value{App(fn, SBool, v.Term), boolT}
+		default:
+			fn := dynImplName(named)
+			u.D.Fun(fn, SBool, SVal)
+			return Value{App(fn, SBool, v.Term), boolT}
+		}
+	case "ufv", "ufb", "ufi":
+		// uninterpreted observer: ufv("name", args...) : Val, ufb: Bool, ufi: Int
+		lit, ok := x.Args[0].(*ast.BasicLit)
+		if !ok {
+			unsup("%s needs a string name", fname)
+		}
+		name, _ := strconv.Unquote(lit.Value)
+		var ts []Term
+		var ss []Sort
+		for _, a := range x.Args[1:] {
+			v := u.sv(a, env, sc)
+			ts = append(ts, v.Term)
+			ss = append(ss, v.Sort)
+		}
+		rs, rt := SVal, types.Type(types.NewInterfaceType(nil, nil))
+		if fname == "ufb" {
+			rs, rt = SBool, boolT
+		} else if fname == "ufi" {
+			rs, rt = SInt, intT
+		}
+		u.D.Fun("uf_"+name, rs, ss...)
+		return Value{App("uf_"+name, rs, ts...), rt}
+	case "zeroof":
+		v := u.sv(x.Args[0], env, sc)
+		if v.Ty == nil {
+			unsup("zeroof untyped value")
+		}
+		return Value{u.zero(v.Ty), v.Ty}
+	case "nilref":
+		v := u.sv(x.Args[0], env, sc)
+		return Value{u.nilref(v.Term), boolT}
+	case "boxed":
+		v := u.sv(x.Args[0], env, sc)
+		return u.specBox(v, env)
 	case "held":
 		key := strings.Join(strings.Fields(nodeString(token.NewFileSet(), x.Args[0])), " ")
 		mode := strings.Trim(nodeString(token.NewFileSet(), x.Args[1]), "\"")
